@@ -52,6 +52,9 @@ def sweep_scenarios(quick, seed):
                     continue
                 out.append({"ttl": ttl, "jump": jump, "later": 3 * ttl + 5 * TICK, "op": op, "sized": k % 2, "syncexec": (k // 2) % 2, "warm": 0,
                             "max": 4 + k % 5})
+    # stale-node eviction while a load of the key is in flight (C08)
+    for op in ("ld.staleevict.inv", "ld.staleevict.set"):
+        out.append({"ttl": 0, "jump": 0, "later": 0, "op": op, "sized": 1, "syncexec": 0, "warm": 0, "max": 0})
     # many entries due in the same sweep (more than the 2049 events one pass drains from the write buffer)
     k = 0
     for n in (2100, 3000, 5000):
@@ -71,6 +74,10 @@ def sweep_scenarios(quick, seed):
                     continue
                 out.append({"ttl": ttl, "jump": jump, "later": 3 * ttl + 5 * TICK, "op": op, "sized": 1, "syncexec": (k // 2) % 2, "warm": 0, "max": 4 + k % 5})
     return out
+
+
+def sc_is_foreign(sc):
+    return sc["op"].startswith("ld.")
 
 
 def expire_race_cfg(readers, nreads, ttl, maxclock, nsweeps, sized, resurrect):
@@ -114,6 +121,8 @@ def read_race_half(prop, tier, mc_out=None):
         scs = [sc for sc in sweep_scenarios(False, seed) if sc["op"].startswith("gate.")]
     elif prop == "C05":
         scs = [sc for sc in sweep_scenarios(False, seed) if sc["op"].startswith("sia.")]
+    elif prop == "C08":
+        scs = [sc for sc in sweep_scenarios(False, seed) if sc["op"].startswith("ld.")]
     else:
         scs = [sc for sc in sweep_scenarios(False, seed) if sc["op"].startswith("read.")]
         if tier == "quick":
@@ -272,7 +281,7 @@ def run(prop, tier, replay=None):
                     total = sc["jump"] + sc["later"]
                     r["mustsweep"] = 1 if (total - sc["ttl"] > TICK and sc["later"] > TICK) else 0
                     r["deadlinepassed"] = 1 if sc["ttl"] <= total else 0
-                    if sc["op"].startswith("mass."):
+                    if sc["op"].startswith(("mass.", "ld.")):
                         r["mustsweep"], r["deadlinepassed"] = 0, 1
                     if sc["op"].startswith(("read.", "gate.", "sia.")):
                         # the extended deadline is at most (ttl - 1000) + ttl after the write; later = 3 ttl + 5 ticks lies beyond it
@@ -332,7 +341,7 @@ def run(prop, tier, replay=None):
         if recs:
             cov["samples"].append({"race": recs[0][0]})
         for x in d["devs"]:
-            if not x["pred"].startswith(("C13.", "C04.")):
+            if sc_is_foreign(recs[x["rec"] - 1][1]) or not x["pred"].startswith(("C13.", "C04.")):
                 continue     # C06.* of the gated read races, C05.* of the write races: reported by those checks
             cov["predicates_failed"][x["pred"]] = cov["predicates_failed"].get(x["pred"], 0) + 1
             sc = recs[x["rec"] - 1][1]
